@@ -12,12 +12,13 @@ CONST = [T.A("a"), T.A("b"), T.A("c")]
 
 def gen_case(rng):
     den = 10
-    clauses, choices, text = [], [], []
+    clauses, choices, text, pairs = [], [], [], []
 
     def add_clause(h, b, c=0, v=0, ptxt=None):
         clauses.append({"h": h, "b": b, "c": c, "v": v})
         line = r_clause({"h": h, "b": b})
         text.append((ptxt + "::" + line) if ptxt else line)
+        pairs.append((clauses[-1], text[-1]))
     # probabilistic facts g/1 (ground), possibly the same atom twice, and deterministic e/1
     for _ in range(rng.randint(2, 4)):
         p = rng.randint(1, 9)
@@ -53,6 +54,12 @@ def gen_case(rng):
         add_clause(T.Cm("h", T.V(1)), b)
     if any(c["h"]["c"] == T.codes("h") for c in clauses):
         preds.append("h")
+        # the same clause twice: one solution reached twice through the identical proof
+        if rng.random() < 0.35:
+            hc = [(c, t) for c, t in pairs if c["h"]["c"] == T.codes("h")]
+            c0, t0 = rng.choice(hc)
+            clauses.append(json.loads(json.dumps(c0)))
+            text.append(t0)
     goal = [{"k": "call", "t": T.Cm(rng.choice(preds), T.V(2))}]
     if rng.random() < 0.3:
         goal.append({"k": "call", "t": T.Cm(rng.choice(preds), T.V(2))})
@@ -76,7 +83,7 @@ def run(ctx):
         cases.append(c)
     J = tlc.judge_batch("JudgeFindall", [{k: c[k] for k in ("id", "clauses", "choices", "den", "q")} for c in cases],
                         nproc=ctx.nproc, tag="c19")
-    runs = pl.run_jobs([("prob_terms", {"text": c["text"]}) for c in cases], nproc=ctx.nproc, timeout=120)
+    runs = pl.run_jobs([("prob_terms", {"text": c["text"]}) for c in cases], nproc=ctx.nproc, timeout=ctx.pick(25, 120))
     nontriv = 0
     for c, r in zip(cases, runs):
         ctx.evaluations += 1
